@@ -237,7 +237,7 @@ func checkC16(c *Ctx) (string, error) {
 		if filt != nil {
 			s := strings.ReplaceAll(exprStr(filt.Cond), " ", "")
 			want := "cur!=m&&(IsBadName(name)||((name[0]=='.'||name[0]=='_')&&!all))"
-			okFilter = s == want
+			okFilter = s == want || s == strings.Replace(want, "cur!=m", "m!=cur", 1)
 			why = "filter is " + s + ", the go tool uses " + want
 			// outcome: SkipDir for directories, nil for files
 			body := strings.ReplaceAll(nodeSrc(filt.Body), " ", "")
@@ -402,7 +402,7 @@ func checkC16(c *Ctx) (string, error) {
 				}
 				return true
 			})
-			okLess = strings.Contains(s, "di,ei:=embedSplit(out[i].Name)") && strings.Contains(s, "dj,ej:=embedSplit(out[j].Name)") && strings.Contains(s, "ifdi!=dj") && rets == "di<dj;ei<ej;"
+			okLess = strings.Contains(s, "di,ei:=embedSplit(out[i].Name)") && strings.Contains(s, "dj,ej:=embedSplit(out[j].Name)") && (strings.Contains(s, "ifdi!=dj") || strings.Contains(s, "ifdj!=di")) && rets == "di<dj;ei<ej;"
 		}
 		c.Check(okLess, "R16.2", "BuildFSEntries comparator (dir, elem)", bf.Pos(), "compare directory, then element", "the embed.FS table is not ordered by (directory, element): the standard library's binary search misses entries")
 	} else {
